@@ -102,6 +102,9 @@ def runCase (s : DSt) : String :=
   let ord := judgeOrder (real.filter (!·.isIgnored))
   let docsBad := (real.filter (fun t => !t.isIgnored && !judgeDocs cfg s.src ms t)).length
   let loc := judgeLocal cfg s.src ms real
+  let kindBad := match s.kinds with
+    | some ks => (real.filter (fun t => !t.isIgnored && !judgeKind cfg s.names ks ms t)).length
+    | none => 0
   let nm := names cfg ms
   let arrbad := ((List.range nm.length).filter (fun j =>
     match nm[j]? with
@@ -113,6 +116,7 @@ def runCase (s : DSt) : String :=
     | none, [], some o => s!"FAIL:order:{o}".replace " " "_"
     | none, [], none =>
       if docsBad > 0 then s!"FAIL:docs:{docsBad}_tags"
+      else if kindBad > 0 then s!"FAIL:kind:{kindBad}_tags_with_wrong_is_definition_or_syntax_type"
       else match loc with
         | some l => s!"FAIL:local:{l}".replace " " "_"
         | none => "ok"
@@ -120,7 +124,7 @@ def runCase (s : DSt) : String :=
   let lz := match lossy with
     | [] => "-"
     | m :: _ => m.replace " " "_"
-  s!"{s.id} corr={corr.replace " " "_"} vars={vars} judge={j} tags={real.length} matches={ms.length} skipped={skipped} lossy={lossy.length} lossymsg={lz} multi={multi} nonascii={na} cfgbad={if cfg.invalid then 1 else 0} capi={(capiCheck s).replace " " "_"} names={nm.length} arrbad={arrbad} late={if noLate {} cfg s.src none ms (initSt s.src) then 0 else 1}"
+  s!"{s.id} corr={corr.replace " " "_"} vars={vars} judge={j} tags={real.length} matches={ms.length} skipped={skipped} lossy={lossy.length} lossymsg={lz} multi={multi} nonascii={na} cfgbad={if cfg.invalid then 1 else 0} withdocs={(real.filter (fun t => t.docs.isSome)).length} capi={(capiCheck s).replace " " "_"} names={nm.length} arrbad={arrbad} late={if noLate {} cfg s.src none ms (initSt s.src) then 0 else 1}"
 
 def step (s : DSt) (line : String) : IO DSt := do
   match line.splitOn " " with
